@@ -68,6 +68,8 @@ VARS = [
     ("v_aug", "x = [1]\nx += [2]", ()),
     ("v_anntup", "x: list = []\nx, y = [1], [2]", ()),
     ("v_int", "x = 1", ()),
+    ("v_nt", "class N(NamedTuple):\n  a: int\n  b: str = 'z'\nx = N(1)\ny = [x.a]", ("NamedTuple",)),
+    ("v_td", "class D(TypedDict):\n  a: int\nx = D(a=1)\ny = [x]", ("TypedDict",)),
 ]
 ITEMS = {i: (t, n) for i, t, n in FUNCS + VARS}
 FUNC_IDS = [i for i, _, _ in FUNCS]
@@ -132,7 +134,7 @@ def render(spec):
   pre = []
   if "typing" in needs:
     pre.append("import typing")
-  ty = sorted(needs & {"Any", "Optional"}) + (["TypeVar"] if "T" in needs else [])
+  ty = sorted(needs & {"Any", "Optional", "NamedTuple", "TypedDict"}) + (["TypeVar"] if "T" in needs else [])
   if ty:
     pre.append("from typing import " + ", ".join(ty))
   if "T" in needs:
@@ -208,9 +210,12 @@ def specs_for(tier):
 
 
 # -------------------------------------------------------- generated stubs
-TYPES7 = [None, "int", "Any", "Never", "Optional[int]", "list[int]", "_T"]
+# the number of types must be prime (orthogonal-array construction); Decimal and OrderedDict need imports
+# that are not typing imports
+TYPES7 = [None, "int", "Any", "Never", "Optional[int]", "Decimal", "_T"]
 TYPES11 = [None, "int", "str", "Any", "Never", "Optional[int]", "list[int]", "Callable[..., Any]", "_T",
            "Literal[1]", "dict[str, Any]"]
+TYPES13 = TYPES11 + ["Decimal", "collections.OrderedDict[str, int]"]
 _SKIP_NAMES = {"deco", "T"}
 
 
@@ -267,7 +272,7 @@ class Skel:
             p[3] = self._slot()
           ents.append(("func", st.name, decos, params, self._slot()))
         elif isinstance(st, ast.ClassDef):
-          ents.append(("class", st.name, self._body(st.body, True)))
+          ents.append(("class", st.name, self._body(st.body, True), [ast.unparse(b) for b in st.bases]))
         elif isinstance(st, (ast.Assign, ast.AnnAssign)):
           ts = st.targets if isinstance(st, ast.Assign) else [st.target]
           for t in ts:
@@ -281,19 +286,22 @@ class Skel:
     rec(body)
     return ents
 
-  def stub(self, assign, types):
-    """Stub text for one slot->type-index assignment."""
+  def stub(self, assign, types, vars_last=False):
+    """Stub text for one slot->type-index assignment (variable declarations before or after defs/classes)."""
     def ty(slot):
       return None if slot is None else types[assign[slot]]
 
     def emit(ents, ind):
       pad = " " * ind
       lines = []
+      vlines = []
       for e in ents:
         if e[0] == "var":
           t = ty(e[2])
           if t is not None:
-            lines.append("%s%s: %s" % (pad, e[1], t))
+            vlines.append("%s%s: %s" % (pad, e[1], t))
+      if not vars_last:
+        lines += vlines
       for e in ents:
         if e[0] == "func":
           _, name, decos, params, rslot = e
@@ -319,17 +327,24 @@ class Skel:
             lines.append("%s@%s" % (pad, d))
           lines.append("%sdef %s(%s)%s: ..." % (pad, name, ", ".join(parts), " -> " + rt if rt is not None else ""))
         elif e[0] == "class":
-          lines.append("%sclass %s:" % (pad, e[1]))
+          lines.append("%sclass %s%s:" % (pad, e[1], "(%s)" % ", ".join(e[3]) if len(e) > 3 and e[3] else ""))
           sub = emit(e[2], ind + 4)
           lines += sub or [pad + "    pass"]
+      if vars_last:
+        lines += vlines
       return lines
 
     body = "\n".join(emit(self.root, 0))
-    used = [n for n in ("Any", "Callable", "Literal", "Never", "Optional") if re.search(r"\b%s\b" % n, body)]
+    used = [n for n in ("Any", "Callable", "Literal", "NamedTuple", "Never", "Optional", "TypedDict") if re.search(r"\b%s\b" % n, body)]
     tv = bool(re.search(r"\b_T\b", body))
     head = []
+    if re.search(r"\bcollections\.", body):
+      head.append("import collections")
+    if re.search(r"\bDecimal\b", body):
+      head.append("from decimal import Decimal")
     if used or tv:
       head.append("from typing import " + ", ".join(used + (["TypeVar"] if tv else [])))
+    if head:
       head.append("")
     if tv:
       head += ["_T = TypeVar('_T')", ""]
@@ -362,8 +377,8 @@ def oa_rows(p, k):
 def gen_stubs(src, types):
   sk = Skel(src)
   seen, out = set(), []
-  for row in oa_rows(len(types), sk.nslots):
-    t = sk.stub(row, types)
+  for k, row in enumerate(oa_rows(len(types), sk.nslots)):
+    t = sk.stub(row, types, vars_last=bool(k % 2))
     if t not in seen:
       seen.add(t)
       out.append(t)
@@ -1036,6 +1051,7 @@ def _classify(info, bad):
 def work(item):
   mode, src, spec, part, types = item
   stats, cands = {}, {}
+  merged_before = []
 
   def bump(k, n=1):
     stats[k] = stats.get(k, 0) + n
@@ -1056,9 +1072,12 @@ def work(item):
         bump(k, info[k])
     for v in bad:
       bump("viol:" + v.sig)
-      c = (0 if origin == "gen" else 1, len(src) + len(pyi), src, pyi, v[2], list(spec))
+      # merged_before: the stubs this process merged into src before this one (a work item runs in a
+      # freshly forked worker, so that is the whole in-process history of the failing merge)
+      c = (0 if origin == "gen" else 1, len(src) + len(pyi), src, pyi, v[2], list(spec), list(merged_before))
       if v.sig not in cands or c < cands[v.sig]:
         cands[v.sig] = c
+    merged_before.append(pyi)
 
   if mode == "inf":
     try:
@@ -1076,9 +1095,37 @@ def work(item):
   return stats, cands
 
 
+def _sigs_after(arg):
+  """Signatures violated by the last merge of a sequence of stubs into src (run in a forked child)."""
+  src, pyis = arg
+  out = []
+  for k, p in enumerate(pyis):
+    bad, _, merged = check_pair(src, p)
+    if k == len(pyis) - 1:
+      out = [(v.sig, v[2]) for v in bad], merged
+  return out
+
+
 def _min_work(item):
-  sig, origin, src, pyi, spec = item
+  sig, origin, src, pyi, spec, before = item
   if origin == 0:
+    alone, _ = vrun.isolated(_sigs_after, (src, [pyi]))
+    if sig not in [x for x, _ in alone]:
+      # the pair is fine on its own: the violation depends on what the process merged earlier
+      hist = None
+      for p in before:
+        got, merged = vrun.isolated(_sigs_after, (src, [p, pyi]))
+        if sig in [x for x, _ in got]:
+          hist = [p]
+          break
+      if hist is None:
+        got, merged = vrun.isolated(_sigs_after, (src, list(before) + [pyi]))
+        if sig not in [x for x, _ in got]:
+          raise RuntimeError("violation %s of %r / %r reproduces neither alone nor after its recorded history" % (sig, src, pyi))
+        hist = list(before)
+      msg = next(m for x, m in got if x == sig)
+      return ({"sig": sig, "origin": "generated-stub-after-earlier-merges", "src": src, "pyi": pyi, "history": hist},
+              "after merging %d other stub(s) in the same process: %s" % (len(hist), msg), merged)
     s, p = minimise(src, pyi, sig)
     bad, _, out = check_pair(s, p)
     msg = next(v[2] for v in bad if v.sig == sig)
@@ -1092,11 +1139,14 @@ def _min_work(item):
 
 
 def _key(case):
-  return vrun.jkey({"sig": case["sig"], "src": case["src"], "pyi": case.get("pyi", "<inferred>")})
+  d = {"sig": case["sig"], "src": case["src"], "pyi": case.get("pyi", "<inferred>")}
+  if case.get("history"):
+    d["history"] = case["history"]
+  return vrun.jkey(d)
 
 
 def run(rep, tier, seed):
-  types = TYPES7 if tier == "quick" else TYPES11
+  types = TYPES7 if tier == "quick" else TYPES13
   progs = specs_for(tier)
   items = []
   nstub = 0
@@ -1114,12 +1164,19 @@ def run(rep, tier, seed):
         items.append(("gen", src, spec, part, ty))
   tot, best = {}, {}
   t0 = time.time()
-  for item, (stats, cands) in vrun.pmap(work, items, seed=seed, chunksize=1):
-    for k, v in stats.items():
-      tot[k] = tot.get(k, 0) + v
-    for sig, c in cands.items():
-      if sig not in best or c < best[sig]:
-        best[sig] = c
+  # everything the workers need is imported before they fork; the generated-stub items each run in a
+  # freshly forked worker (maxtasks=1), so that the merges of one item are the whole in-process history
+  from pytype.tools.merge_pyi import merge_pyi as _preload  # pylint: disable=unused-import
+  import libcst.codemod.visitors  # pylint: disable=unused-import
+  gen_items = [it for it in items if it[0] == "gen"]
+  inf_items = [it for it in items if it[0] != "gen"]
+  for its, mt in ((inf_items, None), (gen_items, 1)):
+    for item, (stats, cands) in vrun.pmap(work, its, seed=seed, chunksize=1, maxtasks=mt):
+      for k, v in stats.items():
+        tot[k] = tot.get(k, 0) + v
+      for sig, c in cands.items():
+        if sig not in best or c < best[sig]:
+          best[sig] = c
   rep.evaluations = tot.get("pairs", 0)
   rep.nontrivial_extra = tot.get("nontrivial", 0)
   for k, v in sorted(tot.items()):
@@ -1127,9 +1184,9 @@ def run(rep, tier, seed):
       rep.outcome(k[4:], v)
   t1 = time.time()
   # one violation per root-cause signature, on its minimised witness
-  mins = [(sig, c[0], c[2], c[3], c[5]) for sig, c in sorted(best.items())]
+  mins = [(sig, c[0], c[2], c[3], c[5], c[6]) for sig, c in sorted(best.items())]
   done = sorted(((case["sig"], case, msg, out) for _, (case, msg, out) in
-                 vrun.pmap(_min_work, mins, seed=seed, chunksize=1)), key=lambda t: t[0])
+                 vrun.pmap(_min_work, mins, seed=seed, chunksize=1, maxtasks=1)), key=lambda t: t[0])
   for sig, case, msg, out in done:
     case["merged"] = out
     case["failing_pairs_in_this_run"] = tot.get("viol:" + sig, 0)
@@ -1175,5 +1232,7 @@ def replay(case):
   boot.load()
   src = case["src"]
   pyi = case["pyi"] if "pyi" in case else _infer(src, False)
+  for p in case.get("history") or ():
+    check_pair(src, p)     # the earlier merges of the same process
   bad, _, _ = check_pair(src, pyi)
   return [{"key": _key(case), "summary": v[2]} for v in bad if v.sig == case["sig"]][:1]
